@@ -3,9 +3,12 @@
 Every case is one Gallina term of type bool:
   tree level   the model's text == what the real printer wrote (exactly; exceptions -> None), and - inside the domain of the round-trip
                theorems (pl_okb_en / pl_okb_ja) - the model's token-level READER run on the REAL text gives the expected view;
-  batch level  prolog_en_doc / prolog_ja_doc == depccg.printer.to_string(batch, format='prolog'), header lines included.
-Domain of the model (stated in FmtProlog.v): str.lower() acts on A-Z only.  `in_lower_domain` tests that on the category names of a
-tree with the real str.lower(); trees outside are not compared (counted by the caller).
+  batch level  prolog_en_doc / prolog_ja_doc == depccg.printer.to_string(batch, format='prolog'), header lines included (the model's header is the
+               generated GenFmt.prolog_header_src), and both document readers on the REAL text: dec_prolog_doc (header stripped as a text) and
+               FmtPrologHeader.dec_prolog_doc_h (header read: its declarations must be those of the format).
+Domain of the model (stated in FmtProlog.v): str.lower() one character at a time from the interpreter's own table (GenFmt.py_lower_table), i.e.
+everything but context-dependent lower-casing (U+03A3, final sigma).  `in_lower_domain` tests with the real str.lower() that the category names
+of a tree are lower-cased character by character; trees outside are not compared (counted by the caller).
 """
 import os
 import sys
@@ -15,7 +18,7 @@ from gallina import lit, gtree, gopt, glist, gnat
 
 PRE_PROLOG = '''From Coq Require Import List NArith ZArith Bool Arith.
 Import ListNotations.
-Require Import Cat CatFacts Tree Fmt FmtProlog.
+Require Import Cat CatFacts Tree Fmt FmtProlog FmtPrologHeader.
 Open Scope N_scope.
 Definition otext_eqb_p (a b : option text) : bool := match a, b with Some x, Some y => text_eqb x y | None, None => true | _, _ => false end.
 Fixpoint view_eqb_p {L : Type} (e : L -> L -> bool) (a b : view L) : bool :=
@@ -55,13 +58,22 @@ Definition doc_eqb (a b : option (list (text * view tok5))) : bool :=
   | None, None => true
   | _, _ => false
   end.
-(* the model's document == the real one, and - when every tree is inside pl_okb_* - the model's document reader on the REAL text gives the records *)
-Definition ChkPlDocEn (b : list (list tree)) (e : option text) : bool :=
-  otext_eqb_p (prolog_en_doc b) e &&
-  match e with Some txt => if forallb (forallb pl_okb_en) b then doc_eqb (dec_prolog_doc dec_en txt) (doc_views view_prolog_en b) else true | None => true end.
-Definition ChkPlDocJa (b : list (list tree)) (e : option text) : bool :=
-  otext_eqb_p (prolog_ja_doc b) e &&
-  match e with Some txt => if forallb (forallb pl_okb_ja) b then doc_eqb (dec_prolog_doc dec_ja txt) (doc_views view_prolog_ja b) else true | None => true end.
+(* the model's document == the real one; the header of the REAL text reads as the declarations of the format (whatever the trees are); and - when
+   every tree is inside pl_okb_* - both document readers on the REAL text give the records *)
+Definition hdr_okb (txt : text) : bool :=
+  match dec_prolog_header txt with Some (ds, _) => decls_eqb ds prolog_decls | None => false end.
+Definition ChkPlDocEnL (b : list (list tree)) (e : option text) : list bool :=
+  [otext_eqb_p (prolog_en_doc b) e;
+   match e with Some txt => if forallb (forallb pl_okb_en) b then doc_eqb (dec_prolog_doc dec_en txt) (doc_views view_prolog_en b) else true | None => true end;
+   match e with Some txt => hdr_okb txt | None => true end;
+   match e with Some txt => if forallb (forallb pl_okb_en) b then doc_eqb (dec_prolog_doc_h dec_en txt) (doc_views view_prolog_en b) else true | None => true end].
+Definition ChkPlDocJaL (b : list (list tree)) (e : option text) : list bool :=
+  [otext_eqb_p (prolog_ja_doc b) e;
+   match e with Some txt => if forallb (forallb pl_okb_ja) b then doc_eqb (dec_prolog_doc dec_ja txt) (doc_views view_prolog_ja b) else true | None => true end;
+   match e with Some txt => hdr_okb txt | None => true end;
+   match e with Some txt => if forallb (forallb pl_okb_ja) b then doc_eqb (dec_prolog_doc_h dec_ja txt) (doc_views view_prolog_ja b) else true | None => true end].
+Definition ChkPlDocEn (b : list (list tree)) (e : option text) : bool := forallb (fun x => x) (ChkPlDocEnL b e).
+Definition ChkPlDocJa (b : list (list tree)) (e : option text) : bool := forallb (fun x => x) (ChkPlDocJaL b e).
 '''
 
 ERRORS = (KeyError, IndexError, AssertionError, AttributeError)
@@ -93,17 +105,25 @@ def _nodes(t):
             yield from _nodes(c)
 
 
+CONTEXTUAL = '\u03a3'      # the code point whose lower-casing depends on its neighbours (GenFmt.py_lower_contextual, found by probing the interpreter)
+
+
+def charwise_lower(x):
+    return ''.join(ch.lower() for ch in x)
+
+
 def in_lower_domain(t):
-    """str.lower() acts only on A-Z on every text the printers lower-case (category base names, Japanese `case` values)"""
+    """str.lower() works one character at a time on every text the printers lower-case (category base names, Japanese `case` values):
+    no context-dependent character, and the real result is the character-wise one"""
     from depccg.cat import TernaryFeature
     for n in _nodes(t):
         for a in _atoms(n.cat):
-            if a.base.lower() != ascii_lower(a.base):
-                return False
+            texts = [a.base]
             if isinstance(a.feature, TernaryFeature):
-                for _, v in a.feature.items():
-                    if v.lower() != ascii_lower(v):
-                        return False
+                texts += [v for _, v in a.feature.items()]
+            for x in texts:
+                if any(c in x for c in CONTEXTUAL) or x.lower() != charwise_lower(x):
+                    return False
     return True
 
 
@@ -192,9 +212,10 @@ def special_trees(rng, lang, n):
                     t = Tree.make_unary(rng.choice(cats), t, rng.choice(['lex', 'tr']), '<un>')
             return t
         out.append(build(toks))
-    # category names beyond ASCII: a caseless script stays inside the model (str.lower leaves it alone), a cased non-ASCII letter is outside
-    # (tree_case returns None for it; the caller counts it)
-    for name in ('\u30ab', '\u732bx', '\u00c9a', 'S\u00c9'):
+    # category names beyond ASCII: caseless scripts, cased non-ASCII letters (Latin-1, Greek, Cyrillic, a titlecase digraph, U+0130 whose lower
+    # case has two code points, U+1E9E -> U+00DF, a Deseret capital beyond the BMP); names with U+03A3 are outside the model (tree_case returns
+    # None for them; the caller counts them)
+    for name in ('\u30ab', '\u732bx', '\u00c9a', 'S\u00c9', '\u0130x', 'N\u01c5', '\u03a9\u0416z', '\u1e9ePP', '\U00010400q', 'A\u03a3', '\u03a3b'):
         c = Category.parse(name)
         out.append(Tree.make_unary(rng.choice(cats), Tree.make_terminal(gen.rand_token(rng, lang, False), c), 'lex' if lang == 'en' else 'ADNint', '<un>' if lang == 'en' else 'ADNint'))
     return out
